@@ -224,3 +224,17 @@ Proof.
     { unfold status_eqb. rewrite Hst. cbn. now rewrite !andb_false_r. }
     rewrite Hne in H. cbn in H. inversion H; subst; clear H. reflexivity.
 Qed.
+
+(* C18: the BatchRelease finalizer is dropped only for a deleting object whose phase is Completed *)
+Theorem br_finalizer_guard sp st w r : reconcile sp st w = Some r -> r_finalizer r = false ->
+  sp_deleting sp = true /\ bs_phase st = PhCompleted /\ sp_finalizer sp = true.
+Proof.
+  unfold reconcile. intros H Hf.
+  destruct (sp_deleting sp && brphase_eqb (bs_phase st) PhCompleted && sp_finalizer sp) eqn:E.
+  - apply andb_true_iff in E. destruct E as [E E3]. apply andb_true_iff in E. destruct E as [E1 E2].
+    apply brphase_eqb_eq in E2. auto.
+  - destruct (sync_status sp st w) as [s2 stop].
+    destruct (negb (status_eqb st s2)); [inversion H; subst; discriminate|].
+    destruct stop; [inversion H; subst; discriminate|].
+    destruct (execute sp st s2 w); [discriminate|]. inversion H; subst. discriminate.
+Qed.
